@@ -89,7 +89,8 @@ def ensure_built(verbose=False):
     lock = open(os.path.join(VERIF, '.build.lock'), 'w')
     fcntl.flock(lock, fcntl.LOCK_EX)
     try:
-        if not os.path.exists(os.path.join(COQ, 'Makefile')):
+        mk, proj = os.path.join(COQ, 'Makefile'), os.path.join(COQ, '_CoqProject')
+        if not os.path.exists(mk) or os.path.getmtime(mk) < os.path.getmtime(proj):
             r = _run(['coq_makefile', '-f', '_CoqProject', '-o', 'Makefile'], cwd=COQ)
             if r.returncode != 0:
                 return False, r.stdout.decode()
@@ -197,7 +198,9 @@ def load_known():
 TRUSTED_BASE = [
     'Coq 8.16.1 kernel and coqc; vm_compute (reflective bounded theorems and refutation witnesses); no native_compute',
     'Extraction with ExtrOcamlBasic only (Extract Inductive bool/option/unit/list/prod/sumbool/sumor; inlined andb/orb/negb/fst/snd); numbers stay extracted inductives',
-    'OCaml 4.13.1 and ocaml/driver.ml (tokeniser, number conversion, canonical printing)',
+    'OCaml 4.13.1 and ocaml/driver.ml, ocaml/vdriver.ml (tokenisers, number conversion, canonical printing); Extract/ExtractVis.v for the discovery model',
+    'harness/coqrun.py: model terms evaluated inside Coq with vm_compute from a generated cases file (C11 C12 C13 C14 C17 C18 C20)',
+    'harness/translate_ir.py: fail-closed ast -> IR translator whose output Props/C16.v is stated about (C16)',
     'Python harness: encoders inspect<->line protocol, generators, canonicalisation (harness/*.py)',
     'CPython 3.12.1 as the definition of argument binding (the binding model is compared against real calls on every run)',
     'hand-written Gallina model of sigtools (coq/theories/Model/*.v) tied to /repo by the correspondence run of this check',
@@ -228,8 +231,11 @@ def write_evidence(pid, tier, seed, level, rep, obl, wall, n_viol, checker_cmd):
         'coverage': cov, 'assumptions': rep.assumptions, 'wall_s': round(wall, 2),
         'violations': int(n_viol),
     }
-    os.makedirs(os.path.join(VERIF, 'evidence'), exist_ok=True)
-    path = os.path.join(VERIF, 'evidence', pid + '.json')
+    # a run against another tree (seeded change in a scratch worktree) must not
+    # overwrite the evidence of the tree under /repo
+    evdir = 'evidence' if os.environ.get('SIGTOOLS_REPO', '/repo') == '/repo' else os.path.join('replays', 'evidence-other-tree')
+    os.makedirs(os.path.join(VERIF, evdir), exist_ok=True)
+    path = os.path.join(VERIF, evdir, pid + '.json')
     tmp = path + '.tmp%d' % os.getpid()
     with open(tmp, 'w') as f:
         json.dump(ev, f, indent=1, sort_keys=True, default=str)
